@@ -404,3 +404,34 @@ contract('odml/base.py::Sectionable._matches',
          note='a Section satisfies a request iff its name is the requested key (if any) and its type, compared lower '
               'case, is the requested type (if any); without include_subtype nothing else matches (which component of the type '
               'include_subtype accepts is left to the bounded check: the split reasoning is undecided by both solvers)')
+
+
+# ---- C14: find returns only objects satisfying the request, and one if any exists -------------------
+def _M(x):
+    """the request of find(key, type, include_subtype=False) is satisfied by the child Section x"""
+    t = 'lower(attr(%s, "type", "BaseSection"))' % x
+    wanted = '(lower(type) if type else type)'
+    return ('((key is None or field(%s, "_name") == key) and (%s is None or %s == %s))' % (x, wanted, t, wanted))
+
+
+_SECS = 'field(self, "_sections")'
+
+contract('odml/base.py::Sectionable.find',
+         types={'self': ('BaseSection', 'BaseDocument'), 'key': 'any', 'type': 'any', 'findAll': 'any',
+                'include_subtype': 'any'}, pure=True,
+         requires='(key is None or is_str(key)) and (type is None or is_str(type)) and is_bool(include_subtype) '
+                  'and not include_subtype and is_bool(findAll) and not findAll and '
+                  'all(is_str(attr(item(%s, j), "type", "BaseSection")) for j in range(llen(%s)))' % (_SECS, _SECS),
+         ensures=['implies(result is not None, listed(%s, result))' % _SECS,
+                  'implies(result is not None, %s)' % _M('result'),
+                  'implies(result is None, all(not %s for j in range(llen(%s))))' % (_M('item(%s, j)' % _SECS), _SECS)],
+         raises={},
+         # inside the loop the local `type` already is the lower-case spelling (or the falsy value it was)
+         invariants={0: 'len(_acc) == 0 and all(not ((key is None or field(item(_it, j), "_name") == key) and '
+                        '(type is None or lower(attr(item(_it, j), "type", "BaseSection")) == type)) '
+                        'for j in range(_i))'},
+         result_types=('BaseSection',),
+         props=('C14',),
+         note='find (first match, exact type) returns a child Section whose name is the requested key and whose type, '
+              'lower case, is the requested type, and None iff no child satisfies the request; the helper _matches '
+              'is used through its contract')
